@@ -128,6 +128,34 @@ func (h *HistGen) Block(br *Branch, txs []interfaces.Transaction, o ...MineOpts)
 	return b
 }
 
+// BadBlock mines a block that passes the context-free checks but not the context check: it
+// spends an output of its parent's coinbase, which is not mature (CoinbaseMaturity ≥ 2).
+func (h *HistGen) BadBlock(br *Branch) *types.Block {
+	parent := h.S.BranchTip(br)
+	cb := parent.Transactions[0]
+	o := cb.Outputs()[0]
+	co := Coin{ID: ID(cb.Hash()), Idx: 0, Addr: h.S.N.AddrNo(o.ProgramHash), Value: int64(o.Value), Height: parent.Height, CB: true}
+	tx := h.spend([]Coin{co}, nil, 500)
+	return h.Block(br, []interfaces.Transaction{tx})
+}
+
+// IsBad recognises such a block (for oracles): a transaction spends its parent's coinbase.
+func (s *Sim) IsBad(b *types.Block) bool {
+	parent := s.N.Block(b.Header.Previous)
+	if parent == nil {
+		return false
+	}
+	cbh := parent.Transactions[0].Hash()
+	for _, tx := range b.Transactions[1:] {
+		for _, in := range tx.Inputs() {
+			if in.Previous.TxID == cbh {
+				return true
+			}
+		}
+	}
+	return false
+}
+
 // HonestBlock mines a block with 0–maxTx valid transfers on br.
 func (h *HistGen) HonestBlock(br *Branch, maxTx int) *types.Block {
 	used := map[string]bool{}
